@@ -209,7 +209,14 @@ type vSeen struct {
 
 func vAscendAll(c *Collection, withValue bool) ([]vSeen, error) {
 	var out []vSeen
-	err := c.VisitItemsAscendEx(nil, withValue, func(i *Item, depth uint64) bool {
+	// start at the minimum under the collection's own comparator (a nil target
+	// is the minimum only for bytes.Compare-like orders)
+	mi, err := c.MinItem(false)
+	if err != nil || mi == nil {
+		return nil, err
+	}
+	c.store.ItemDecRef(c, mi) // the caller releases what MinItem handed out
+	err = c.VisitItemsAscendEx(mi.Key, withValue, func(i *Item, depth uint64) bool {
 		out = append(out, vSeen{i.Key, i.Val, i.Priority, depth})
 		return true
 	})
@@ -301,7 +308,8 @@ type vCfg struct {
 	file    bool // file-backed store
 	cache   int  // 0: everything dirty; 1: all cache states; 2: all persisted, arbitrary load/evict states
 	klen    int  // max key length (1..klen, chosen per key)
-	vlen    int  // max value length (0..vlen, chosen per item)
+	vlen    int  // max value length (vlenMin..vlen, chosen per item)
+	vlenMin int
 	variant int  // 0 weak, 1 heap order, 2 heap order + distinct priorities
 	cmp     KeyCompare
 	name    string
@@ -357,7 +365,10 @@ func vBuildPre(cfg vCfg) *vPre {
 		if cfg.klen > 1 {
 			kl = vChoose("klen", 1, cfg.klen)
 		}
-		vl := vChoose("vlen", 0, cfg.vlen)
+		vl := cfg.vlen
+		if cfg.vlenMin < cfg.vlen {
+			vl = vChoose("vlen", cfg.vlenMin, cfg.vlen)
+		}
 		k := vBytes(vName("k", i), kl)
 		v := vBytes(vName("v", i), vl)
 		p := vInt32(vName("p", i))
